@@ -358,7 +358,12 @@ class CrawlRun(object):
                 # the schema is created statement by statement while the table object is constructed: every data
                 # definition statement is an event (and thereby a crash point) too
                 def on_ddl(conn, cursor, statement, parameters, context, executemany):
-                    if statement.lstrip()[:6].upper() in ('CREATE', 'ALTER ', 'DROP T', 'DROP I'):
+                    head = statement.lstrip()[:6].upper()
+                    if head in ('CREATE', 'ALTER ', 'DROP T', 'DROP I'):
+                        run.log(e='ddl', what=' '.join(statement.split()[:3]))
+                    elif getattr(run, 'stmt_points', False) and head in ('INSERT', 'UPDATE', 'DELETE'):
+                        # every data-changing statement is a crash point too (inside a transaction a kill here must
+                        # leave nothing behind: seen only if the transaction really is one)
                         run.log(e='ddl', what=' '.join(statement.split()[:3]))
                 if not getattr(run, '_ddl_hooked', False):
                     run._ddl_hooked = True
